@@ -29,6 +29,14 @@ class Violation(Exception):
         self.data = data
 
 
+class CaseTimeout(BaseException):
+    """A single case exceeded its watchdog: the run is inconclusive (exit 2), never a violation."""
+
+
+def _alarm(signum, frame):
+    raise CaseTimeout()
+
+
 class Facet:
     def __init__(
         self,
@@ -42,6 +50,7 @@ class Facet:
         runner=None,
         shrink_quick=True,
         expected_exceptions=(),
+        case_timeout=120,
     ):
         """quick / thorough = (shards, examples per shard).
 
@@ -60,6 +69,7 @@ class Facet:
         self.runner = runner
         self.shrink_quick = shrink_quick
         self.expected_exceptions = expected_exceptions
+        self.case_timeout = case_timeout
 
     def budget(self, tier):
         return self.thorough if tier == "thorough" else self.quick
@@ -163,6 +173,9 @@ def _worker(args):
             facet.setup(shard)
         from . import findings
 
+        import signal
+
+        signal.signal(signal.SIGALRM, _alarm)
         stats = Stats()
         if facet.runner is not None:
             failure = _run_enumerated(prop, facet, shard, nshards, tier, stats, findings)
@@ -172,6 +185,9 @@ def _worker(args):
             )
         out["stats"] = stats.as_dict()
         out["failure"] = failure
+    except CaseTimeout:
+        out["error"] = (f"INCONCLUSIVE: a case of {prop}/{facet_name} shard {shard} ran longer than its "
+                        f"watchdog; the library call did not return")
     except BaseException as e:  # harness error
         out["error"] = "".join(traceback.format_exception(type(e), e, e.__traceback__))[
             -4000:
@@ -222,8 +238,14 @@ def _run_hypothesis(prop, facet, shard, tier, seed, examples, stats, findings):
     )
     @given(facet.strategy(shard, tier))
     def test(case):
+        import signal
+
         try:
-            res = facet.check(case)
+            signal.alarm(facet.case_timeout)
+            try:
+                res = facet.check(case)
+            finally:
+                signal.alarm(0)
         except UnsatisfiedAssumption:
             stats.discarded += 1
             raise
@@ -378,7 +400,7 @@ def finish(prop, mod, tier, seed, results, wall, only_facets):
         if bucket in seen_kinds:
             continue
         seen_kinds.add(bucket)
-        d = os.path.join(HERE, "replays", prop)
+        d = os.path.join(os.environ.get("VERIF_REPLAY_DIR", os.path.join(HERE, "replays")), prop)
         os.makedirs(d, exist_ok=True)
         h = case_hash(f["case"])
         path = os.path.join(d, f"{r['facet']}-{h}.json")
@@ -401,7 +423,7 @@ def finish(prop, mod, tier, seed, results, wall, only_facets):
         if rc == 0:
             rc = 2
 
-    if not only_facets:
+    if not only_facets and not os.environ.get("VERIF_NO_EVIDENCE"):
         ev = dict(
             property_id=prop,
             tier=tier,
